@@ -7,10 +7,166 @@ otherwise Unsupported is raised and the run fails.  Statements that touch no tra
 SOpaque.  Only `ast` is used; grpclib is never imported."""
 import ast
 import os
+import sys
+
+sys.path.insert(0, os.path.dirname(os.path.abspath(__file__)))
+import pynorm  # noqa: E402
 
 
 class Unsupported(Exception):
     pass
+
+
+class _Ctx:
+    """per-program translation state: numbering of untracked conditions, list temporaries"""
+    def __init__(self):
+        self.untracked = 0
+        self.lists = {}          # list temporary -> recorded header ops (not yet emitted)
+        self.dirty = False       # an await / flag write happened since the first recorded op
+
+    def fresh_untracked(self):
+        self.untracked += 1
+        return self.untracked
+
+    # header lists: every list variable that flows into the list handed to send_headers/send_request.  The IR
+    # has ONE implicit header list and its SHeadersNew/SHeadersAdd/SEncodeMetadata statements act on it in
+    # program order; `content[v]` is the sequence of emitted op ids that make up list variable v, and at the
+    # send the list handed over must consist of exactly the ops emitted, in the order emitted.
+    def reset_lists(self, fn):
+        self.listvars = list_vars(fn)
+        self.content = {}
+        self.emitted = []
+        self.opid = 0
+
+    def new_op(self):
+        self.opid += 1
+        self.emitted.append(self.opid)
+        return self.opid
+
+
+def list_vars(fn):
+    """the local names that hold (parts of) the header list: the first argument of the send calls, and, to a
+    fixpoint, every name assigned/added/extended into one of them"""
+    vs = set()
+    for n in ast.walk(fn):
+        if isinstance(n, ast.Call) and ast.unparse(n.func) in ('self._stream.send_headers', 'stream.send_request',
+                                                                'self._stream.send_request') and n.args:
+            if isinstance(n.args[0], ast.Name):
+                vs.add(n.args[0].id)
+    changed = True
+
+    def names_in(e):
+        if isinstance(e, ast.Name):
+            return [e.id]
+        if isinstance(e, ast.BinOp) and isinstance(e.op, ast.Add):
+            return names_in(e.left) + names_in(e.right)
+        return []
+    while changed:
+        changed = False
+        for n in ast.walk(fn):
+            new = []
+            if isinstance(n, ast.Assign) and len(n.targets) == 1 and isinstance(n.targets[0], ast.Name) \
+                    and n.targets[0].id in vs:
+                new = names_in(n.value)
+            elif isinstance(n, ast.AugAssign) and isinstance(n.target, ast.Name) and n.target.id in vs:
+                new = names_in(n.value)
+            elif (isinstance(n, ast.Call) and isinstance(n.func, ast.Attribute) and n.func.attr == 'extend'
+                  and isinstance(n.func.value, ast.Name) and n.func.value.id in vs and len(n.args) == 1):
+                new = names_in(n.args[0])
+            for x in new:
+                if x not in vs:
+                    vs.add(x)
+                    changed = True
+    return vs
+
+
+def mentions_list(node):
+    return any(isinstance(n, ast.Name) and n.id in CTX.listvars for n in ast.walk(node))
+
+
+def list_value(e):
+    """the header-list expression e as (ir statements emitted now, content ids)"""
+    if isinstance(e, (ast.List, ast.Tuple)):
+        names = header_names(e)
+        if not names:
+            return [], []
+        k = CTX.new_op()
+        return ['SHeadersAdd %s' % clist(names)], [k]
+    if isinstance(e, ast.Name) and e.id in CTX.listvars:
+        if e.id not in CTX.content:
+            raise Unsupported('header list %s used before it is built' % e.id)
+        return [], CTX.content[e.id]
+    if isinstance(e, ast.BinOp) and isinstance(e.op, ast.Add):
+        ir1, c1 = list_value(e.left)
+        ir2, c2 = list_value(e.right)
+        return ir1 + ir2, list(c1) + list(c2)
+    if isinstance(e, ast.Call) and ast.unparse(e.func) == 'encode_metadata':
+        k = CTX.new_op()
+        return ['SEncodeMetadata'], [k]          # user metadata (C13's model): may raise
+    if isinstance(e, ast.Call) and ast.unparse(e.func) == 'list' and len(e.args) == 1:
+        ir, c = list_value(e.args[0])
+        return ir, list(c)
+    raise Unsupported('header list expression: ' + ast.unparse(e))
+
+
+def first_new(ir):
+    """the implicit list must be reset by the first statement that creates it"""
+    return ir
+
+
+def list_stmt(s, side):
+    """IR for a simple statement that mentions a header-list variable"""
+    if isinstance(s, ast.Assign) and len(s.targets) == 1 and isinstance(s.targets[0], ast.Name) \
+            and s.targets[0].id in CTX.listvars:
+        v = s.targets[0].id
+        fresh_program = not CTX.emitted and not any(CTX.content.values())
+        if isinstance(s.value, (ast.List, ast.Tuple)) and fresh_program:
+            # the first list created by the program resets the implicit list
+            names = header_names(s.value)
+            k = CTX.new_op()
+            CTX.content[v] = [k]
+            return ['SHeadersNew %s' % clist(names)]
+        ir, c = list_value(s.value)
+        if isinstance(s.value, ast.Name):
+            CTX.content[v] = c                   # alias: the same list object
+        else:
+            CTX.content[v] = list(c)
+        return ir
+    if isinstance(s, ast.AugAssign) and isinstance(s.op, ast.Add) and isinstance(s.target, ast.Name) \
+            and s.target.id in CTX.listvars:
+        v = s.target.id
+        if v not in CTX.content:
+            raise Unsupported('header list %s extended before it is built' % v)
+        ir, c = list_value(s.value)
+        CTX.content[v].extend(c)
+        return ir
+    if isinstance(s, ast.Expr) and isinstance(s.value, ast.Call) and isinstance(s.value.func, ast.Attribute) \
+            and isinstance(s.value.func.value, ast.Name) and s.value.func.value.id in CTX.listvars \
+            and len(s.value.args) == 1 and not s.value.keywords:
+        v = s.value.func.value.id
+        if v not in CTX.content:
+            raise Unsupported('header list %s used before it is built' % v)
+        a = s.value.args[0]
+        if s.value.func.attr == 'append':
+            ir, c = list_value(ast.List(elts=[a]))
+            CTX.content[v].extend(c)
+            return ir
+        if s.value.func.attr == 'extend':
+            ir, c = list_value(a)
+            CTX.content[v].extend(c)
+            return ir
+    raise Unsupported('header list statement: ' + ast.unparse(s)[:100])
+
+
+def check_sent(arg):
+    """the list handed to the wire must be exactly what the IR's implicit list holds"""
+    if not (isinstance(arg, ast.Name) and arg.id in CTX.listvars and arg.id in CTX.content):
+        raise Unsupported('send argument is not a tracked header list: ' + ast.unparse(arg))
+    if CTX.content[arg.id] != CTX.emitted:
+        raise Unsupported('header list %s is not the in-order concatenation of the header statements' % arg.id)
+
+
+CTX = _Ctx()
 
 
 FLAGS = {
@@ -57,6 +213,11 @@ def is_self_attr(n, names=None):
 def cond(e):
     """Translate a test expression; returns a Coq term of type cond, or None when the expression
     mentions no tracked state (an 'untracked' condition)."""
+    if isinstance(e, ast.IfExp):
+        r = pynorm.nnf(e)
+        if isinstance(r, ast.IfExp):
+            raise Unsupported('conditional expression: ' + ast.unparse(e))
+        e = r
     if is_self_attr(e, FLAGS):
         return 'CFlag %s' % FLAGS[e.attr]
     if isinstance(e, ast.Name) and e.id in PARAMS:
@@ -77,12 +238,20 @@ def cond(e):
             if all(p is None for p in parts):
                 return None
             # a tracked condition mixed with an untracked one: the untracked part is adversarial
-            parts = [p if p is not None else 'CEnv (E_untracked %d)' % e.lineno for p in parts]
+            parts = [p if p is not None else 'CEnv (E_untracked %d)' % CTX.fresh_untracked() for p in parts]
         r = parts[0]
         for p in parts[1:]:
             r = '%s (%s) (%s)' % (op, r, p)
         return r
     src = ast.unparse(e)
+    if src in ('status is not Status.OK', 'status != Status.OK', 'Status.OK is not status', 'Status.OK != status'):
+        return 'CNot (CStatusOK)'
+    if src in ('status is Status.OK', 'status == Status.OK', 'Status.OK is status', 'Status.OK == status'):
+        return 'CStatusOK'
+    if src in ("'grpc-status' not in headers_map",):
+        return 'CNot (CEnv E_has_grpc_status)'
+    if src in ('message is None',):
+        return 'CNot (CEnv E_got_message)'
     if src in ('self._cardinality.client_streaming',):
         return 'CClientStreaming'
     if src in ('self._cardinality.server_streaming',):
@@ -142,12 +311,11 @@ def mentions_tracked(node):
             return True
         if isinstance(n, ast.Name) and n.id in LOCALS:
             return True
-        if isinstance(n, ast.Name) and n.id == 'headers' and isinstance(n.ctx, ast.Store):
+        if isinstance(n, ast.Name) and n.id in CTX.listvars:
             return True
         if isinstance(n, ast.Call):
             f = ast.unparse(n.func)
-            if is_self_attr(n.func, HELPERS) or f in ('self._stream.reset_nowait', 'headers.append',
-                                                      'headers.extend'):
+            if is_self_attr(n.func, HELPERS) or f in ('self._stream.reset_nowait',):
                 return True
     return False
 
@@ -175,6 +343,9 @@ def await_ir(call, side):
         c = 'CFalse' if es is None else cond(es)
         if c is None:
             raise Unsupported('send_request end_stream: ' + ast.unparse(call))
+        if not call.args:
+            raise Unsupported('send_request without a header list: ' + ast.unparse(call))
+        check_sent(call.args[0])
         return 'SAwaitPrim (PSendRequest (%s))' % c
     if f == 'self._stream.send_headers':
         es = kw(call, 'end_stream')
@@ -184,8 +355,9 @@ def await_ir(call, side):
             b = 'true' if es.value else 'false'
         else:
             raise Unsupported('send_headers end_stream: ' + ast.unparse(call))
-        if not (len(call.args) == 1 and isinstance(call.args[0], ast.Name) and call.args[0].id == 'headers'):
+        if len(call.args) != 1:
             raise Unsupported('send_headers argument: ' + ast.unparse(call))
+        check_sent(call.args[0])
         return 'SAwaitPrim (PSendHeaders %s)' % b
     if f == 'self._stream.end':
         return 'SAwaitPrim PEnd'
@@ -225,7 +397,10 @@ def stmt(s, side):
         return ['SOpaque']
     if isinstance(s, ast.If):
         c = cond(s.test)
-        t, e = block(s.body, side), block(s.orelse, side)
+        if mentions_list(s):
+            t, e = list_branches(s, side)
+        else:
+            t, e = block(s.body, side), block(s.orelse, side)
         if c is None:
             only = all(x in ('SOpaque', 'SEncodeMetadata') or x.startswith('SHeadersAdd')
                        or x.startswith('SHeadersNew') for x in t + e)
@@ -233,7 +408,7 @@ def stmt(s, side):
                 raise Unsupported('tracked statement under an untracked condition, line %d' % s.lineno)
             if all(x == 'SOpaque' for x in t + e):
                 return ['SOpaque']
-            c = 'CEnv (E_untracked %d)' % s.lineno
+            c = 'CEnv (E_untracked %d)' % CTX.fresh_untracked()
         return ['SIf (%s) %s %s' % (c, clist(t), clist(e))]
     if isinstance(s, ast.Raise):
         exc = s.exc
@@ -248,6 +423,9 @@ def stmt(s, side):
                 and s.items[0].optional_vars is None:
             return ['SGuarded %s' % clist(block(s.body, side))]
         raise Unsupported('with: ' + ast.unparse(s.items[0].context_expr))
+    if isinstance(s, (ast.Assign, ast.Expr, ast.AugAssign)) and mentions_list(s) \
+            and not any(isinstance(n, ast.Await) for n in ast.walk(s)):
+        return list_stmt(s, side)
     if isinstance(s, (ast.Assign, ast.Expr, ast.AnnAssign)):
         val = s.value
         aw = [n for n in ast.walk(s) if isinstance(n, ast.Await)]
@@ -269,19 +447,8 @@ def stmt(s, side):
                 if c is None:
                     raise Unsupported('tracked local := untracked value')
                 return ['SSetLocal %s (%s)' % (LOCALS[t.id], c)]
-            if is_headers_target(t):
-                return ['SHeadersNew %s' % clist(header_names(val))]
         if isinstance(val, ast.Call):
             f = ast.unparse(val.func)
-            if f == 'headers.append' and len(val.args) == 1:
-                return ['SHeadersAdd %s' % clist(header_names(ast.List(elts=[val.args[0]])))]
-            if f == 'headers.extend' and len(val.args) == 1:
-                a = val.args[0]
-                if isinstance(a, (ast.List, ast.Tuple)):
-                    return ['SHeadersAdd %s' % clist(header_names(a))]
-                if isinstance(a, ast.Call) and ast.unparse(a.func) == 'encode_metadata':
-                    return ['SEncodeMetadata']      # user metadata (C13's model): may raise
-                raise Unsupported('headers.extend: ' + ast.unparse(a))
             if f == 'self._stream.reset_nowait':
                 return ['SResetNowait']
         for n in ast.walk(s):
@@ -289,6 +456,77 @@ def stmt(s, side):
                 return ['SHelper %s' % HELPERS[n.func.attr]]
         raise Unsupported('assign/expr: ' + ast.unparse(s)[:100])
     raise Unsupported(type(s).__name__ + ': ' + ast.unparse(s)[:80])
+
+
+def list_branches(s, side):
+    """both branches of an `if` that touches header lists: each branch may extend (or create) ONE list variable,
+    the same in both, by exactly the header statements it emits; the `if` then counts as one composite op"""
+    pre_content = {k: list(v) for k, v in CTX.content.items()}
+    pre_alias = {k: id(v) for k, v in CTX.content.items()}
+    pre_emitted = list(CTX.emitted)
+    results = []
+    for branch in (s.body, s.orelse):
+        CTX.content = {k: list(v) for k, v in pre_content.items()}
+        # keep aliasing between names that shared one list object
+        groups = {}
+        for k, i in pre_alias.items():
+            groups.setdefault(i, []).append(k)
+        for names in groups.values():
+            for n in names[1:]:
+                CTX.content[n] = CTX.content[names[0]]
+        CTX.emitted = list(pre_emitted)
+        ir = block(branch, side)
+        added = CTX.emitted[len(pre_emitted):]
+        changed = {}
+        for k, v in CTX.content.items():
+            if k not in pre_content or v != pre_content[k]:
+                changed[k] = list(v)
+        results.append((ir, added, changed))
+    (t, add_t, ch_t), (e, add_e, ch_e) = results
+    CTX.content = {k: list(v) for k, v in pre_content.items()}
+    groups = {}
+    for k, i in pre_alias.items():
+        groups.setdefault(i, []).append(k)
+    for names in groups.values():
+        for n in names[1:]:
+            CTX.content[n] = CTX.content[names[0]]
+    CTX.emitted = list(pre_emitted)
+    if not add_t and not add_e and not ch_t and not ch_e:
+        return t, e
+    touched = set(ch_t) | set(ch_e)
+    roots = {}
+    for v in touched:
+        roots.setdefault(pre_alias.get(v, v), []).append(v)
+    if len(roots) != 1:
+        raise Unsupported('an `if` that changes several header lists, line %d' % getattr(s, 'lineno', 0))
+    vs = list(roots.values())[0]
+    v = vs[0]
+    base = pre_content.get(v)
+    for ch, added in ((ch_t, add_t), (ch_e, add_e)):
+        got = ch.get(v, base)
+        if got is None:
+            raise Unsupported('header list %s created in only one branch, line %d' % (v, getattr(s, 'lineno', 0)))
+        want = (added if (v in ch and (base is None or got[:len(base)] != base)) else (base or []) + added)
+        if got != want:
+            raise Unsupported('branch does not extend header list %s in program order, line %d'
+                              % (v, getattr(s, 'lineno', 0)))
+    fresh_both = all(v in ch and (base is None or ch[v][:len(base)] != base or not base) and v in ch
+                     for ch in (ch_t, ch_e)) and (base is None)
+    k = CTX.new_op()
+    if base is None or fresh_both:
+        new = [k]
+    else:
+        # a branch that re-creates the list from scratch while the other extends it is not expressible
+        for ch in (ch_t, ch_e):
+            if v in ch and ch[v][:len(base)] != base:
+                raise Unsupported('header list %s re-created in a branch, line %d' % (v, getattr(s, 'lineno', 0)))
+        new = base + [k]
+    for n in vs:
+        CTX.content[n] = new
+    for n, i in pre_alias.items():
+        if i == pre_alias.get(v) and n not in vs:
+            CTX.content[n] = new
+    return t, e
 
 
 def block(ss, side):
@@ -300,6 +538,15 @@ def block(ss, side):
                 continue
             out.append(x)
     return out
+
+
+def canonical(tree, name, cls='Stream'):
+    """the coroutine in canonical form (tools/pynorm.py): private helpers other than the modelled ones inlined,
+    tests in negation normal form, early-exit form, single-use temporaries inlined"""
+    try:
+        return pynorm.canonical_function(tree, cls, name, keep=lambda n: n in HELPERS)
+    except pynorm.Unsupported as e:
+        raise Unsupported('normalisation of %s: %s' % (name, e))
 
 
 def methods(tree, cls, names):
@@ -343,7 +590,10 @@ def generate(repo):
         ms = methods(tree, 'Stream', names)
         for name in names:
             check_params(ms[name], allowed)
-            body = block(ms[name].body, side)
+            fn = canonical(tree, name)
+            CTX.untracked = 0
+            CTX.reset_lists(fn)
+            body = block(fn.body, side)
             L.append('Definition %s_%s : program := %s.' % (side, name, pretty(body)))
             L.append('')
         L.append('Definition %s_ops : optable := [%s].' % (
